@@ -4,6 +4,7 @@ CONSTANTS
   MaxPow = 30
   Families = {"writer"}
   Big = TRUE
+  SweepSet <- SweepQ
   WSizes <- WMenu
   WNames = {0, 1, 7, 255}
   WMaxLen = 3
